@@ -30,7 +30,7 @@ func init() {
 		ID:    "C08",
 		Level: "fault_enumeration",
 		Title: "Decoders are total on untrusted input: error or valid geometry, never a crash",
-		Rule: "cases = (corpus member, corruption class) over a corpus of valid encodings of every type/coordinate type/emptiness in WKB, TWKB, WKT and GeoJSON: every truncation; every byte value at header/type/count/flag positions and boundary values elsewhere (field maps from the independent codecs); every 4-byte count overwritten with {0,1,2^31-1,2^31,2^32-1} in both byte orders; every varint overwritten with 2^k, 2^64-1 and an over-long varint; splices; PRNG byte strings up to 64 KiB; token-mutated and deeply nested WKT/GeoJSON. " +
+		Rule: "[added in rounds 9-11: feature:geojson: Feature/FeatureCollection documents over every subset and order of standard, misspelt and foreign members] cases = (corpus member, corruption class) over a corpus of valid encodings of every type/coordinate type/emptiness in WKB, TWKB, WKT and GeoJSON: every truncation; every byte value at header/type/count/flag positions and boundary values elsewhere (field maps from the independent codecs); every 4-byte count overwritten with {0,1,2^31-1,2^31,2^32-1} in both byte orders; every varint overwritten with 2^k, 2^64-1 and an over-long varint; splices; PRNG byte strings up to 64 KiB; token-mutated and deeply nested WKT/GeoJSON. " +
 			"Each input goes through every decoder entry point of its format in a worker with an address-space limit; the driver attributes worker deaths to the journaled input. non-trivial = every corrupted input; distinct by (format, input bytes) hash per case",
 		Assumptions: []string{
 			"allocation bound per call: delta of cumulative heap allocation <= 64 MiB + 8192*len(input) (fixed in DESIGN.md before the check existed; legitimate decoders measured at 2-60 bytes per input byte)",
